@@ -53,6 +53,8 @@ def main():
                 meta[k] = kept[k]
     except Exception:
         pass
+    if checkonly and checks == [prop] and kept.get('confirmation', {}).get('checks'):
+        checks = list(kept['confirmation']['checks'])  # regression: the checks the change was evaluated with
     nested = []  # demo files delivered with their path inside the repository
     for root, _, fs in os.walk(src):
         for f in fs:
